@@ -19,6 +19,7 @@ CONSTANTS
   DevRateKeyHeader = FALSE
   DevRefundOnRefusal = FALSE
   RateBad = FALSE
+  DevTrimValues = FALSE
   DevRawNewlines = FALSE
 INVARIANTS C27_NoEffect
 VIEW View
